@@ -106,18 +106,22 @@ def wrapPtr (nullable : Bool) (j : Json) (r : DRes GoVal) : DRes GoVal :=
 
 def asciiLower (s : String) : String := s.map fun c => if 'A' ≤ c ∧ c ≤ 'Z' then Char.ofNat (c.toNat + 32) else c
 
-/-- the JSON member `encoding/json` stores into a field named `name`: exact key, else
-    case-insensitive (ASCII); the last such member wins -/
-def memberFor (name : String) (members : List (String × Json)) : Option Json :=
-  match (members.filter (fun kv => kv.1 == name)).getLast? with
-  | some kv => some kv.2
-  | none => ((members.filter (fun kv => asciiLower kv.1 == asciiLower name)).getLast?).map (·.2)
+/-- the struct field `encoding/json` stores a JSON member with key `key` into: the field with
+    exactly that name, else the first field whose name matches case-insensitively (ASCII) -/
+def targetField (names : List String) (key : String) : Option String :=
+  if names.contains key then some key
+  else names.find? (fun n => asciiLower n == asciiLower key)
+
+/-- the JSON member that ends up in field `name` (the last one stored into it wins) -/
+def memberFor (names : List String) (name : String) (members : List (String × Json)) : Option Json :=
+  ((members.filter (fun kv => targetField names kv.1 == some name)).getLast?).map (·.2)
 
 /-- decoding of the fields of a Go struct from a JSON object's members -/
 def decodeFieldsWith (dec : Ty → Json → DRes GoVal) (fields : List Field)
     (members : List (String × Json)) : DRes (List (String × Bool × GoVal)) :=
   mapRes (fun (f : Field) =>
-    (dec f.ty ((memberFor f.name members).getD .null)).map fun v => (f.name, !f.required, v)) fields
+    (dec f.ty ((memberFor (fields.map (·.name)) f.name members).getD .null)).map
+      fun v => (f.name, !f.required, v)) fields
 
 /-- scalars-union (`disjunction_of_scalars`): branches tried in field order, first that decodes wins -/
 def decodeScalarUnionWith (dec : Ty → Json → DRes GoVal) (j : Json) :
